@@ -155,6 +155,9 @@ def with_operands(opb, operands, q, tail=None, pre=b''):
 MEMFILL = push(0x1122334455667788990011223344556677889900aabbccddeeff00112233445566) + push(0) + op('MSTORE') + \
     push(M256 - 0x1234) + push(32) + op('MSTORE')
 CALLDATA = bytes(range(1, 41))
+RETURNER, REVERTER, FAILER = (0xd100000000000000000000000000000000000d01, 0xd200000000000000000000000000000000000d02,
+                              0xd300000000000000000000000000000000000d03)
+MARKER = int.from_bytes(bytes([0xab]) * 32, 'big')
 INIT1 = bytes.fromhex('600160005360016000f3')          # creates a contract with the 1-byte code 01
 INITREV = bytes.fromhex('60006000fd')                  # init code that reverts
 INITBAD = bytes.fromhex('fe')                          # init code that fails
@@ -294,6 +297,15 @@ def gen_snippets(rng, per_op, mode='ANN'):
                         label = name + (':to-fe-documented-deviation' if to == 0xfe else '')
                         add(label, with_operands(b, args, 1, tail=push(128) + op('MSTORE') + op('RETURNDATASIZE') + push(160) + op('MSTORE') +
                                                  push(1) + op('SLOAD') + push(192) + op('MSTORE') + push(224) + push(0) + op('RETURN'), pre=MEMFILL))
+            # output window: memory[70:70+outsz] pre-filled with a marker; the callee returns 32 bytes / RETURNs 40 / REVERTs with
+            # 40 / halts exceptionally / has no code / is a precompile.  "untouched", "overwritten", "partly overwritten" differ.
+            marks = b''.join(push(MARKER) + push(64 + 32 * i) + op('MSTORE') for i in range(5))
+            wtail = push(256) + op('MSTORE') + op('RETURNDATASIZE') + push(288) + op('MSTORE') + push(320) + push(0) + op('RETURN')
+            for tname, to in (('returns32', OTHER), ('returns40', RETURNER), ('reverts40', REVERTER), ('fails', FAILER), ('nocode', NOBODY),
+                              ('identity', 4), ('sha256', 2)):
+                for outsz in (0, 10, 32, 40, 64):
+                    args = [op('GAS'), to] + ([0] if hasv else []) + [0, 32, 70, outsz]
+                    add('%s:window:%s' % (name, tname), with_operands(b, args, 1, tail=wtail, pre=MEMFILL + marks))
         elif name in ('CREATE', 'CREATE2'):
             for init in (INIT1, INITREV, INITBAD, b''):
                 for val in (0, 1, 2000):
@@ -354,6 +366,9 @@ CONFIGS = {
     'crea_ref':  ('MC_EVMFrames_crea_ref.cfg', 'REF', 'direct', 3),
     'crea_ann':  ('MC_EVMFrames_crea_ann.cfg', 'ANN', 'direct', 3),
     'crea_app':  ('MC_EVMFrames_crea_app.cfg', 'APP', 'direct', 3),
+    'win_ref':   ('MC_EVMFrames_win_ref.cfg', 'REF', 'direct', 3),
+    'win_ann':   ('MC_EVMFrames_win_ann.cfg', 'ANN', 'direct', 3),
+    'win_app':   ('MC_EVMFrames_win_app.cfg', 'APP', 'direct', 3),
     'deep_ann':  ('MC_EVMFrames_deep_ann.cfg', 'ANN', 'tramp', 2),
     'deep_ref':  ('MC_EVMFrames_deep_ref.cfg', 'REF', 'tramp', 2),
     'sim_ref_d': ('MC_EVMFrames_sim_ref_d.cfg', 'REF', 'direct', 4),
@@ -373,6 +388,8 @@ def to_trace(p, name, k, sweep):
 
 
 def run_both(ctx, intree_traces, ref_traces, timeout=2400):
+    if not ref_traces:
+        return engine.run_driver(ctx, 'evmframes', intree_traces, timeout=timeout), {'traces': 0, 'steps': 0, 'checks': 0, 'failures': [], 'extra': {}}
     with ThreadPoolExecutor(2) as ex:
         fa = ex.submit(engine.run_driver, ctx, 'evmframes', intree_traces, timeout=timeout)
         fb = ex.submit(engine.run_driver, ctx, 'refevm', ref_traces, timeout=timeout, module_dir=REF)
@@ -520,8 +537,8 @@ def run(ctx, replay=None):
     quick = ctx.tier == 'quick'
     W = 2 if quick else 4
     TO = 600 if quick else 3000
-    exh = ['core_ann', 'core_app', 'crea_ref', 'crea_app', 'deep_ann'] if quick else \
-        ['core_ref', 'core_ann', 'core_app', 'crea_ref', 'crea_ann', 'crea_app', 'deep_ann', 'deep_ref']
+    exh = ['core_ann', 'core_app', 'crea_ref', 'crea_app', 'deep_ann', 'win_ann'] if quick else \
+        ['core_ref', 'core_ann', 'core_app', 'crea_ref', 'crea_ann', 'crea_app', 'deep_ann', 'deep_ref', 'win_ref', 'win_ann', 'win_app']
     sims = [(n, (150, 250) if quick else (350, 300)) for n in (('sim_ref_d', 'sim_ann_d', 'sim_app_t', 'sim_ann_t') if quick else
                                                               ('sim_ref_d', 'sim_ann_d', 'sim_app_d', 'sim_ref_t', 'sim_ann_t', 'sim_app_t'))]
     results = {}
@@ -550,7 +567,8 @@ def run(ctx, replay=None):
     if True:
         # a seeded sample of the larger exhaustive sets (programs entered through the 1022-frame trampoline cost ~30 ms
         # each on each binary); the thorough tier runs the direct-entry sets completely; every simulated program is run
-        caps = {'core_ann': 800, 'core_app': 800, 'crea_ref': 600, 'crea_app': 800, 'deep_ann': 500} if quick else \
+        # (win_ann, the output-window x callee-outcome x call-kind set, is always run completely)
+        caps = {'core_ann': 600, 'core_app': 600, 'crea_ref': 500, 'crea_app': 700, 'deep_ann': 400, 'win_ref': 600} if quick else \
             {'deep_ann': 1200, 'deep_ref': 1200}
         by = {}
         for t in traces:
